@@ -341,6 +341,8 @@ package trace
 //@   requires p != nil && sp != nil && p.spanProcessors.v != 0 && (forall i in 0 .. len(procs(p)) : procs(p)[i] != nil)
 //@   ensures !old(p.isShutdown.v != 0) && !old(registered(procs(p), sp)) ==> len(procs(p)) == old(len(procs(p))) && (forall i in 0 .. len(procs(p)) : procs(p)[i] == old(procs(p)[i]))
 //@   ensures !old(p.isShutdown.v != 0) && old(registered(procs(p), sp)) ==> len(procs(p)) == old(len(procs(p))) - 1
+// copy-on-write: the list that was published at entry (which concurrent End/ForceFlush calls may still be iterating) is not written
+//@   ensures forall i in 0 .. old(len(procs(p))) : old(procs(p))[i] == old(procs(p)[i])
 //@   loop#1 invariant (stopOnce == nil && (forall q in 0 .. $k : spss[q].sp != sp)) || (stopOnce != nil && 0 <= idx && idx < $k && spss[idx] == stopOnce && spss[idx].sp == sp)
 //@   loop#1 invariant forall q in 0 .. len(spss) : spss[q] != nil && spss[q] == old(procs(p)[q])
 //@   loop#1 invariant stopOnce == nil ==> (forall q in 0 .. $k : old(procs(p)[q].sp) != sp)
@@ -353,6 +355,7 @@ package trace
 //@   requires p != nil && p.spanProcessors.v != 0
 //@   ensures !old(p.isShutdown.v != 0) ==> len(procs(p)) == old(len(procs(p))) + 1 && procs(p)[len(procs(p))-1].sp == sp && (forall i in 0 .. old(len(procs(p))) : procs(p)[i] == old(procs(p)[i]))
 //@   ensures old(p.isShutdown.v != 0) ==> p.spanProcessors.v == old(p.spanProcessors.v)
+//@   ensures forall i in 0 .. old(len(procs(p))) : old(procs(p))[i] == old(procs(p)[i])
 
 // simple span processor: the exporter is only ever called with the lock held, for sampled spans, and never when it is nil
 //@ guarded_by simpleSpanProcessor.exporterMu: exporter
